@@ -603,7 +603,7 @@ func (r *Run) report() int {
 	for i, v := range confirmed {
 		dir := filepath.Join(root, "replays")
 		os.MkdirAll(dir, 0o755)
-		p := filepath.Join(dir, fmt.Sprintf("%s-%d.json", r.Prop, i+1))
+		p := filepath.Join(dir, fmt.Sprintf("%s%s-%d.json", r.Prop, os.Getenv("VERIF_REPLAY_TAG"), i+1))
 		b, _ := json.MarshalIndent(v, "", " ")
 		os.WriteFile(p, b, 0o644)
 		fmt.Printf("[%s] violation in section %s key=%s: %s\n", r.Prop, v.Section, v.Key, trunc(v.Msg, 1200))
